@@ -26,6 +26,21 @@ Definition witness_no_longer : list (option nat * cact) :=
 Definition witness_placeholder : list (option nat * cact) :=
   [(None, CBatch); (Some 0, CSnapshot 7); (Some 0, CGetCols); (None, CClone)].
 
+(* eviction: a PRESENT column of a partition that is registered in the table but not yet in the catalogue is
+   evicted; the query's load (and the flush thread's unwrap) fail *)
+Definition witness_evicted_query : list (option nat * cact) :=
+  [(None, CBatch); (None, CEvict); (Some 0, CSnapshot 0); (Some 0, CGetCols)].
+Definition witness_evicted_flush : list (option nat * cact) :=
+  [(None, CBatch); (None, CEvict); (None, CClone)].
+
+Lemma witness_evicted_query_panics :
+  exists st, crun Cw witness_evicted_query (cinit Cw 0 1) = Some st /\ query_panicked st = true.
+Proof. eexists. split; [vm_compute; reflexivity|vm_compute; reflexivity]. Qed.
+
+Lemma witness_evicted_flush_panics :
+  exists st, crun Cw witness_evicted_flush (cinit Cw 0 1) = Some st /\ flush_panicked st = true.
+Proof. eexists. split; [vm_compute; reflexivity|vm_compute; reflexivity]. Qed.
+
 Lemma witness_not_yet_panics :
   exists st, crun Cw witness_not_yet (cinit Cw 0 1) = Some st /\ query_panicked st = true.
 Proof. eexists. split; [vm_compute; reflexivity|vm_compute; reflexivity]. Qed.
@@ -87,18 +102,20 @@ Section Guarded.
   Definition R (o o' : pobj) : Prop :=
     p_id o' = p_id o /\ p_eph o' = p_eph o /\
     (forall c, assoc c (p_h o) <> None -> assoc c (p_h o') <> None) /\
-    (p_eph o = true -> p_h o' = p_h o).
+    (p_eph o = true -> p_h o' = p_h o) /\
+    (forall c, assoc c (p_h o') = Some HEvicted -> assoc c (p_h o) = Some HEvicted).
 
   Lemma R_refl o : R o o.
   Proof. repeat split; auto. Qed.
 
   Lemma R_trans a b c : R a b -> R b c -> R a c.
   Proof.
-    intros (A1 & A2 & A3 & A4) (B1 & B2 & B3 & B4). repeat split.
+    intros (A1 & A2 & A3 & A4 & A5) (B1 & B2 & B3 & B4 & B5). repeat split.
     - congruence.
     - congruence.
     - auto.
     - intro E. rewrite B4 by congruence. auto.
+    - auto.
   Qed.
 
   Lemma Forall2_R_refl os : Forall2 R os os.
@@ -129,10 +146,10 @@ Section Guarded.
   Qed.
 
   Lemma add_handle_R p col h os o :
-    NoDup (map p_id os) -> find_obj p os = Some o -> p_eph o = false ->
+    NoDup (map p_id os) -> find_obj p os = Some o -> p_eph o = false -> h <> HEvicted ->
     Forall2 R os (add_handle p col h os).
   Proof.
-    intros ND F NE. destruct (find_obj_in _ _ _ F) as (Io & Ip).
+    intros ND F NE NH. destruct (find_obj_in _ _ _ F) as (Io & Ip).
     unfold add_handle.
     assert (G : forall l, incl l os -> Forall2 R l (map (fun o0 => if Nat.eqb p (p_id o0)
                  then mkP (p_id o0) (p_eph o0) ((col, h) :: p_h o0) else o0) l)).
@@ -143,6 +160,7 @@ Section Guarded.
         subst x. repeat split; simpl; auto.
         + intros c Hc. destruct (Nat.eqb c col); [discriminate|exact Hc].
         + congruence.
+        + intros c. destruct (Nat.eqb c col); [|auto]. intro E0. congruence.
       - apply IH. intros y Hy. apply I. right. exact Hy. }
     apply G. apply incl_refl.
   Qed.
@@ -159,15 +177,17 @@ Section Guarded.
   (* object-level invariant w.r.t. a catalogue *)
   Definition ObjOK (ct : list (nat * list nat)) (o : pobj) : Prop :=
     (p_eph o = true -> p_h o = full_handles C) /\
-    (p_eph o = false -> has_all o \/ assoc (p_id o) ct <> None).
+    (p_eph o = false -> has_all o \/ assoc (p_id o) ct <> None) /\
+    (forall c, assoc c (p_h o) <> Some HEvicted).
 
   Lemma ObjOK_R ct o o' : ObjOK ct o -> R o o' -> ObjOK ct o'.
   Proof.
-    intros (A & B) (R1 & R2 & R3 & R4). split.
+    intros (A & B & NE) (R1 & R2 & R3 & R4 & R5). split; [|split].
     - intro E. rewrite R2 in E. rewrite R4 by exact E. auto.
     - intro E. rewrite R2 in E. destruct (B E) as [H|H].
       + left. intros c Hc. apply R3. apply H. exact Hc.
       + right. rewrite R1. exact H.
+    - intros c E. exact (NE c (R5 c E)).
   Qed.
 
   Lemma get_cols_ok os ct p col :
@@ -180,15 +200,18 @@ Section Guarded.
   Proof.
     intros ND OK Hc. unfold get_cols.
     destruct (find_obj p os) as [o|] eqn:F; [|exact I].
-    destruct (find_obj_in _ _ _ F) as (Io & Ip). destruct (OK o Io) as (A & B).
+    destruct (find_obj_in _ _ _ F) as (Io & Ip). destruct (OK o Io) as (A & B & NE).
     destruct (assoc col (p_h o)) as [h|] eqn:Ea.
-    - split; [apply Forall2_R_refl|]. intros o' I' E'.
-      assert (o' = o) by (apply (nodup_ids_eq os); auto; congruence). subst o'. congruence.
+    - assert (G : Forall2 R os os /\ (forall o', In o' os -> p_id o' = p -> assoc col (p_h o') <> None)).
+      { split; [apply Forall2_R_refl|]. intros o' I' E'.
+        assert (o' = o) by (apply (nodup_ids_eq os); auto; congruence). subst o'. congruence. }
+      destruct h; [exact G|exact G|]. exfalso. exact (NE col Ea).
     - destruct (p_eph o) eqn:Ee.
       + exfalso. rewrite (A eq_refl) in Ea. exact (assoc_full col Hc Ea).
       + destruct (B eq_refl) as [H|H]; [exfalso; exact (H col Hc Ea)|].
         rewrite Ip in H. destruct (assoc p ct) as [stored|]; [|congruence].
-        split; [eapply add_handle_R; eauto|]. intros o' I' E'. eapply add_handle_has; eauto.
+        split; [eapply add_handle_R; eauto; destruct (memn col stored); discriminate|].
+        intros o' I' E'. eapply add_handle_has; eauto.
   Qed.
 
   Lemma get_cols_all_ok ct work : forall os,
@@ -284,13 +307,22 @@ Section Guarded.
     rewrite orb_true_iff, IH, Nat.eqb_eq. split; intros [H|H]; auto.
   Qed.
 
+  Lemma full_not_evicted c : assoc c (full_handles C) <> Some HEvicted.
+  Proof.
+    unfold full_handles. induction C as [|x r IH]; simpl; [discriminate|].
+    destruct (Nat.eqb c x); [discriminate|exact IH].
+  Qed.
+
   Lemma has_all_full i e : has_all (mkP i e (full_handles C)).
   Proof. intros c Hc. simpl. apply assoc_full. exact Hc. Qed.
 
   Lemma cinv_step st t a st' :
-    CInv st -> (forall c, a = CSnapshot c -> In c C) -> cstep C t a st = Some st' -> CInv st'.
+    CInv st -> (forall c, a = CSnapshot c -> In c C) -> a <> CEvict -> cstep C t a st = Some st' -> CInv st'.
   Proof.
-    intros HI Hcol H. destruct t as [n|]; simpl in H.
+    intros HI Hcol Hne H0.
+    assert (H : match t with None => fstep C a st | Some n => qstep n a st end = Some st').
+    { unfold cstep in H0. destruct a; try exact H0. congruence. }
+    clear H0. destruct t as [n|]; simpl in H.
     - (* querier *)
       unfold qstep in H. destruct (nth_error (cqs st) n) as [q|] eqn:Hn; [|discriminate].
       assert (Hq := ci_q _ HI q (nth_error_In _ _ Hn)).
@@ -313,7 +345,7 @@ Section Guarded.
           intro I. apply in_map_iff in I. destruct I as (o & E & Io). specialize (ci_fresh0 o Io). lia.
         * intros o I. apply in_app_or in I. destruct I as [I|[<-|[]]]; [specialize (ci_fresh0 o I); lia|simpl; lia].
         * intros o I. apply in_app_or in I. destruct I as [I|[<-|[]]]; [auto|].
-          split; simpl; [reflexivity|discriminate].
+          split; [|split]; simpl; [reflexivity|discriminate|apply full_not_evicted].
         * intros o _ [].
         * intros p E o I Ep. injection E as <-. apply in_app_or in I. destruct I as [I|[<-|[]]]; [|reflexivity].
           specialize (ci_fresh0 o I). lia.
@@ -329,7 +361,7 @@ Section Guarded.
         rewrite AR. destruct HI. constructor; simpl; auto; try discriminate.
       + (* CPersist *)
         injection H as <-. destruct HI. constructor; simpl; auto; try discriminate; try (intros o _ []; fail).
-        intros o Io. destruct (ci_obj0 o Io) as (A & B). split; [exact A|].
+        intros o Io. destruct (ci_obj0 o Io) as (A & B & NE). split; [exact A|split; [|exact NE]].
         intro E. destruct (B E) as [H|H]; [left; exact H|right; apply assoc_app_l; exact H].
       + (* CSkip *)
         injection H as <-. destruct HI. constructor; simpl; auto; try discriminate; try (intros o _ []; fail).
@@ -352,7 +384,7 @@ Section Guarded.
           intro I. apply in_map_iff in I. destruct I as (o & E & Io). specialize (ci_fresh0 o Io). lia.
         * intros o I. apply in_app_or in I. destruct I as [I|[<-|[]]]; [specialize (ci_fresh0 o I); lia|simpl; lia].
         * intros o I. apply in_app_or in I. destruct I as [I|[<-|[]]]; [auto|].
-          split; simpl; [discriminate|]. intros _. left. apply has_all_full.
+          split; [|split]; simpl; [discriminate| |apply full_not_evicted]. intros _. left. apply has_all_full.
         * intros o I Ho. apply in_app_or in I. destruct I as [I|[<-|[]]].
           -- rewrite Efl in ci_olds0. apply ci_olds0; assumption.
           -- right. apply has_all_full.
@@ -361,7 +393,7 @@ Section Guarded.
         * assumption.
       + (* CPrepare *)
         injection H as <-. destruct HI. constructor; simpl; auto; try discriminate; try (intros o _ []; fail).
-        intros o Io. destruct (ci_obj0 o Io) as (A & B). split; [exact A|].
+        intros o Io. destruct (ci_obj0 o Io) as (A & B & NE). split; [exact A|split; [|exact NE]].
         intro E. destruct (memn (p_id o) olds) eqn:Em.
         * apply memn_in in Em. rewrite Efl in ci_olds0. simpl in ci_olds0.
           destruct (ci_olds0 o Io Em) as [H|H]; [congruence|left; exact H].
@@ -381,7 +413,7 @@ Section Guarded.
     unfold cinit. constructor; simpl.
     - rewrite map_map. simpl. rewrite map_id. apply seq_NoDup.
     - intros o I. apply in_map_iff in I. destruct I as (i & <- & Hi). apply in_seq in Hi. simpl. lia.
-    - intros o I. apply in_map_iff in I. destruct I as (i & <- & Hi). split; simpl; [discriminate|].
+    - intros o I. apply in_map_iff in I. destruct I as (i & <- & Hi). split; [|split]; simpl; [discriminate| |discriminate].
       intros _. right. apply (assoc_map_in (fun _ => C)). exact Hi.
     - intros o _ [].
     - discriminate.
@@ -390,14 +422,16 @@ Section Guarded.
   Qed.
 
   Lemma cinv_run sched : forall st st',
-    CInv st -> (forall c, In c (sched_cols sched) -> In c C) -> crun C sched st = Some st' -> CInv st'.
+    CInv st -> (forall c, In c (sched_cols sched) -> In c C) -> sched_evicts sched = false ->
+    crun C sched st = Some st' -> CInv st'.
   Proof.
-    induction sched as [|[t a] r IH]; simpl; intros st st' HI HC H.
+    induction sched as [|[t a] r IH]; simpl; intros st st' HI HC HE H.
     - injection H as <-. exact HI.
     - destruct (cstep C t a st) as [st1|] eqn:E; [|discriminate].
-      apply (IH st1 st'); [|destruct a; simpl in HC; auto|exact H].
-      eapply cinv_step; [exact HI| |exact E].
-      intros c ->. apply HC. simpl. left. reflexivity.
+      apply (IH st1 st'); [|destruct a; simpl in HC; auto|destruct a; simpl in HE; auto; discriminate|exact H].
+      eapply cinv_step; [exact HI| | |exact E].
+      + intros c ->. apply HC. simpl. left. reflexivity.
+      + intros ->. simpl in HE. discriminate.
   Qed.
 
   Lemma cinv_no_panic st : CInv st -> query_panicked st = false /\ flush_panicked st = false.
